@@ -199,3 +199,51 @@ pub fn dump_snapshot<S: GraphSnapshot>(snap: &S, probe_upto: u32) -> Dump {
 
     Dump { g, inv }
 }
+
+
+/// Soundness of property indexes against the model (completeness is the business of C15's
+/// twin comparison): every id an index lookup returns for value `v` must — if the node is
+/// alive — carry exactly that value. Catches index entries written by a transaction that
+/// never committed (crash or I/O error between the in-place index update and the commit
+/// record) and entries left behind by an update.
+pub fn index_soundness<S: GraphSnapshot>(snap: &S, model: &crate::model::Model) -> Vec<(String, String)> {
+    let mut out = Vec::new();
+    for (label, prop) in &model.indexes {
+        // candidate values: everything any node currently holds under this key, plus a few fixed probes
+        let mut vals: Vec<crate::model::Val> = model.node_vals.values().filter_map(|m| m.get(prop)).cloned().collect();
+        vals.extend(crate::l1::index_universe());
+        let mut seen = std::collections::BTreeSet::new();
+        vals.retain(|v| seen.insert(v.canon()));
+        for v in vals {
+            let pv = v.to_pv();
+            if matches!(pv, ndb_api::PropertyValue::List(_) | ndb_api::PropertyValue::Map(_) | ndb_api::PropertyValue::Blob(_) | ndb_api::PropertyValue::DateTime(_)) {
+                continue;
+            }
+            if let ndb_api::PropertyValue::String(s) = &pv
+                && s.len() > 256
+            {
+                continue;
+            }
+            let ids = match catch_unwind(AssertUnwindSafe(|| snap.lookup_index(label, prop, &pv))) {
+                Ok(r) => r.unwrap_or_default(),
+                Err(p) => {
+                    out.push(("index_lookup_panicked".into(), format!("lookup_index({label},{prop},{}): {}", v.canon(), panic_msg(p))));
+                    continue;
+                }
+            };
+            for id in ids {
+                if !model.g.nodes.contains_key(&id) {
+                    continue; // entries of deleted nodes: known finding F28, judged by C15
+                }
+                let have = model.node_vals.get(&id).and_then(|m| m.get(prop)).map(|x| x.canon());
+                if have.as_deref() != Some(v.canon().as_str()) {
+                    out.push((
+                        "index_entry_without_value".into(),
+                        format!("lookup_index({label},{prop},{}) returns live node {id} whose {prop} is {have:?}", v.canon()),
+                    ));
+                }
+            }
+        }
+    }
+    out
+}
